@@ -118,6 +118,22 @@ theorem np_inv_col {n m : ℕ} (k : ℕ) (s : Vec n) (V : Mat n m) :
   show (if i.val < k then (1 : ℚ) / s i * rowsTo k V i j else 0) = rowScaleInv k s V i j
   simp only [rowsTo, rowScaleInv]
   split <;> rfl
+theorem zipWith_map_map {τ α β γ : Type} (f : α → β → γ) (a : τ → α) (b : τ → β) (l : List τ) :
+    List.zipWith f (l.map a) (l.map b) = l.map fun t => f (a t) (b t) := by
+  induction l with
+  | nil => rfl
+  | cons x xs ih => simp [ih]
+/-- the corners of `points[trilist]` and the difference of two per-triangle vector lists, in the model's words -/
+theorem cornerI_cornersOf (pts : ℕ → V2) (tris : List Tri) : cornerI (cornersOf pts tris) = tris.map fun t => pts t.1 := by
+  simp only [cornerI, cornersOf, List.map_map, Function.comp_def]
+theorem cornerJ_cornersOf (pts : ℕ → V2) (tris : List Tri) : cornerJ (cornersOf pts tris) = tris.map fun t => pts t.2.1 := by
+  simp only [cornerJ, cornersOf, List.map_map, Function.comp_def]
+theorem cornerK_cornersOf (pts : ℕ → V2) (tris : List Tri) : cornerK (cornersOf pts tris) = tris.map fun t => pts t.2.2 := by
+  simp only [cornerK, cornersOf, List.map_map, Function.comp_def]
+theorem np_sub_tri_vecs {τ : Type} (a b : τ → V2) (l : List τ) :
+    @HSub.hSub _ _ _ Np.subTriVecs (l.map a) (l.map b) = l.map fun t => V2.sub (a t) (b t) := by
+  show List.zipWith V2.sub _ _ = _
+  exact zipWith_map_map V2.sub a b l
 theorem vsub_centroid {n d : ℕ} (S T : Mat n d) : vsub (centroid T) (centroid S) = fitTranslationVec S T := rfl
 
 /-! ### the plain transforms' constructors (translated base-class bodies) -/
